@@ -310,6 +310,9 @@ func (c20) Generate(r *sim.Rand, tier string) *sim.Scenario {
 	sc := &sim.Scenario{Cfg: map[string]float64{}, Data: map[string][]float64{}}
 	sc.Cfg["rngseed"] = float64(r.Intn(1 << 30))
 	ntasks := r.Range(2, 4)
+	if r.Bool(0.1) {
+		ntasks = r.Range(5, 8) // any number of goroutines
+	}
 	maxSteps := 14
 	if tier == "thorough" {
 		ntasks = r.Range(2, 6)
